@@ -47,9 +47,15 @@ def drive_async(ex, ctor, args, st=None, max_polls=4, futcell='fut0'):
                     s2.status = 'done'
                     s2.result = payload(ex2, s2, pv, 0, 0)
                 elif n < max_polls:
+                    # the task is suspended here; remember whether the control channel was polled since the
+                    # last suspension (a request arriving now is seen only if it was)
+                    s2.trace.append(Event('susp', 'suspend', (s2.extra.get('ctl_polls', 0),), 'susp%d' % n))
+                    s2.extra['ctl_polls'] = 0
                     body = ex2.coroutine_body(s2.cells[futcell])
                     ex2.new_frame(s2, body, [Tree({0: Ptr(futcell)}, None, 'Pin'), UNIT], on_return=mk(n + 1))
                 else:
+                    s2.trace.append(Event('susp', 'suspend', (s2.extra.get('ctl_polls', 0),), 'susp%d' % n))
+                    s2.extra['ctl_polls'] = 0
                     s2.status = 'bound'
                     s2.info = 'still pending after %d polls' % n
             return hook
